@@ -862,5 +862,12 @@ def random_class_merges(seed, count):
                 a = ref(nm)
             alts.append(a)
         # (no repetition: one merged class decides one byte, so the path count stays small at any input bound)
-        out.append(grammar("mrg%d_%d" % (seed, n), [rule("S", act(seq(label("x", choice(*alts)), label("y", opt(any_()))), b_rec("s")))] + rules, tags=["random"]))
+        items = [label("x", choice(*alts))]
+        if rules and rnd.random() < 0.6:
+            # the same leaf rules again, next to other neighbours: inlined copies of one class are merged differently
+            again = [ref(r["name"]) for r in rules[: rnd.randint(1, len(rules))]]
+            again.insert(rnd.randint(0, len(again)), one_class() if rnd.random() < 0.6 else lit(rnd.choice(letters), i=ic))
+            items.append(label("w", opt(choice(*again))))
+        items.append(label("y", opt(any_())))
+        out.append(grammar("mrg%d_%d" % (seed, n), [rule("S", act(seq(*items), b_rec("s")))] + rules, tags=["random"]))
     return out
